@@ -31,6 +31,18 @@
 #undef sexp_context_heap
 #define sexp_context_heap(ctx)      VERIF_FLAT(ctx, context.heap)
 
+/* R11: cbmc 6.11.0's simplifier rewrites `(signed)pointer < 0`, `>= 0`, `<= 0`, `> 0` as if the
+   cast were unsigned (e.g. `(long)p >= 0` becomes `p == NULL`; with --no-simplify the verdicts
+   are right).  The two header macros that test the sign of a tagged word this way are
+   re-expressed through the top bit; the two .c sites are rewritten the same way by the driver
+   (lib/vf.py: SIGN_RE), and lib/selftest checks on every setup that this form is decided
+   correctly by the installed cbmc. */
+#define VERIF_NEGP(a) ((((sexp_uint_t)(a)) >> (sizeof(sexp_uint_t)*8-1)) != 0)
+#undef sexp_fx_abs
+#undef sexp_unbox_fx_abs
+#define sexp_fx_abs(a)       (VERIF_NEGP(a) ? sexp_fx_neg(a) : a)
+#define sexp_unbox_fx_abs(a) (VERIF_NEGP(a) ? -sexp_unbox_fixnum(a) : sexp_unbox_fixnum(a))
+
 /* header fields: tag and the bit-field word */
 #define VERIF_HDR_BYTES (offsetof(struct sexp_struct, value))
 #endif
